@@ -86,7 +86,9 @@ func DeserializeEncrypted(data, authKey []byte) (*Encrypted, error) {
 	msg.SeqNo = d.PopInt()
 	messageLen := d.PopInt()
 
-	if len(decrypted) < int(messageLen)-(tl.LongLen+tl.LongLen+tl.LongLen+tl.WordLen+tl.WordLen) {
+	// the declared length must lie inside the decrypted data: salt, session id, msg_id, seq_no and the
+	// length itself take 32 bytes, the body follows them
+	if messageLen < 0 || int(messageLen) > len(decrypted)-(tl.LongLen+tl.LongLen+tl.LongLen+tl.WordLen+tl.WordLen) {
 		return nil, fmt.Errorf("message is smaller than it's defining: have %v, but messageLen is %v", len(decrypted), messageLen)
 	}
 
@@ -96,7 +98,7 @@ func DeserializeEncrypted(data, authKey []byte) (*Encrypted, error) {
 	}
 
 	// этот кусок проверяет валидность данных по ключу
-	trimed := decrypted[0 : 32+messageLen] // суммарное сообщение, после расшифровки
+	trimed := decrypted[0 : 32+int(messageLen)] // суммарное сообщение, после расшифровки
 	if !bytes.Equal(dry.Sha1Byte(trimed)[4:20], msg.MsgKey) {
 		return nil, errors.New("wrong message key, can't trust to sender")
 	}
